@@ -292,6 +292,14 @@ type SplitCase struct {
 
 func genSplit(t *rapid.T) SplitCase {
 	c := SplitCase{Bound: rapid.SampledFrom([]int{1, 30, 47, 48, 49, 100, 500, 1000, 5000, 20000}).Draw(t, "bound"), IDLen: rapid.SampledFrom([]int{24, 24, 16, 28, 48, 112}).Draw(t, "idlen")}
+	if rapid.IntRange(0, 7).Draw(t, "bigmode") == 0 {
+		// messages close to the largest MQTT packet against bounds that are small multiples of it, up to the real peer bound (10 MiB)
+		c.Bound = rapid.SampledFrom([]int{65536, 131072, 131200, 200000, 1 << 20, 10 << 20}).Draw(t, "bigbound")
+		for i, n := 0, rapid.SampledFrom([]int{1, 2, 3, 16, 17, 40, 161}).Draw(t, "bign"); i < n; i++ {
+			c.Sizes = append(c.Sizes, rapid.SampledFrom([]int{65400, 65450, 65480, 65500, 30000}).Draw(t, "bigsize"))
+		}
+		return c
+	}
 	for i, n := 0, rapid.SampledFrom([]int{0, 1, 2, 5, 10, 30, 30, 200}).Draw(t, "n"); i < n; i++ {
 		c.Sizes = append(c.Sizes, rapid.SampledFrom([]int{0, 1, 2, 10, 50, 100, 452, 453, 454, 4000}).Draw(t, "size"))
 	}
